@@ -115,7 +115,7 @@ theorem lclass_of_normLB_settled {h : Hashing} {i : SyncIn} (hb : normLB h (sett
   obtain ⟨hroll, hru⟩ := legacy_of_legacyB hl
   have hn := normC_of_normCB h1
   cases hp : i.view.parallel with
-  | true => exact Or.inl ⟨rfl, ⟨hn, settle_idPos i, settle_settled i, by simpa [roomB] using h2⟩, hp, hroll, hru⟩
+  | true => exact Or.inl ⟨rfl, ⟨hn, idOk_of_idPos (settle_idPos i) hn.small, settle_settled i, by simpa [roomB] using h2⟩, hp, hroll, hru⟩
   | false =>
     have hp' : (settle i).view.parallel = false := hp
     rw [hp'] at h3
